@@ -177,6 +177,7 @@ func runC16(cx *CheckCtx) {
 		cx.decide(okAll, "version-check", cn+"._deploy", fmt.Sprintf("%d ≤ v < %d established at every effect and every normal exit of the update path", prev, version), cn+"._deploy can complete an update (or migrate data) without PrevVersion ≤ v < Version: rollbacks or updates from unsupported versions are accepted", where)
 		// write set ⊆ T-migrate
 		rows := tMigrate[cn]
+		matched := map[*migRow]bool{}
 		for _, s := range a.RealEffects() {
 			skey := cn + "._deploy(update)/" + siteConstruct(a, s)
 			var row *migRow
@@ -215,6 +216,9 @@ func runC16(cx *CheckCtx) {
 					break
 				}
 			}
+			if row != nil {
+				matched[row] = true
+			}
 			if row == nil {
 				cx.violated("migration-writes", skey, "the update path of "+cn+"._deploy performs "+effectDesc(a, s)+" which is not a documented migration step: an upgrade changes data the read API exposes", s.Where(w))
 				continue
@@ -238,8 +242,22 @@ func runC16(cx *CheckCtx) {
 					cx.decide(okX, "migration-gate", skey, fmt.Sprintf("runs for every stored version < %d", row.below), fmt.Sprintf("the migration step %s can be skipped (at %s) for a stored version < %d: data of the old layout survives the upgrade and becomes invisible to the new code", effectDesc(a, s), whyX, row.below), s.Where(w))
 				}
 			}
+			// a migration loop visits every item (no early way out)
+			if okL, inL, whyL := loopOnlyExhaustion(a, s); inL {
+				cx.decide(okL, "migration-loop", skey, "the migration loop ends only on exhaustion", "the migration loop around "+effectDesc(a, s)+" does not visit every item: "+whyL+"; the rest keeps the old layout", s.Where(w))
+			}
 			okG := row.below == 0 || a.holdsAt(s.In, a.litLtC(vT, row.below))
 			cx.decide(okG, "migration-writes", skey, fmt.Sprintf("documented migration step (guard v < %d)", row.below), fmt.Sprintf("the migration step %s runs without its version guard v < %d: it is re-applied to already migrated data", effectDesc(a, s), row.below), s.Where(w))
+		}
+		// every documented step that still matters (its layout-change version lies above the
+		// oldest supported version) is present: a step that has become unreachable or was dropped
+		// leaves data of the old layout behind
+		for i := range rows {
+			r := &rows[i]
+			if r.below != 0 && r.below <= prev {
+				continue // only versions that can no longer be upgraded from needed it
+			}
+			cx.decide(matched[r], "migration-present", fmt.Sprintf("%s._deploy(update)/%s %s", cn, r.effect, r.key), "the documented migration step is reachable on the update path", fmt.Sprintf("the documented migration step '%s %s' (for stored versions < %d) is no longer reachable on the update path of %s._deploy: data of the old layout is not migrated", r.effect, r.key, r.below, cn), w.pos(dm.Fn.Pos()))
 		}
 		// fresh-deploy initialisation unreachable on update: every effect of the fresh path is absent here
 		fresh := cx.runWith(dm, map[int]constant.Value{1: constant.MakeBool(false)}, "fresh")
